@@ -26,12 +26,19 @@ func genC07(seed uint64, tier Tier) *Case {
 	c.Knobs.PStmt = []float64{0, 0.005, 0.03, 0.1}[g.r.Intn(4)]
 	c.Knobs.SyncLatencyUs = []int{0, 200, 3000}[g.r.Intn(3)]
 	c.Oracles.NoErrors = true
-	if g.r.Bool(0.3) {
-		// retention on: weak presence oracle
+	retention := g.r.Bool(0.3)
+	if retention {
+		// retention on: weak presence oracle. The limit must stay above anything the fraction under the
+		// writers can reach between two maintenance passes (retiring the writer's fraction is a
+		// misconfiguration): small uniform-ish bulks, every bulk costs simulated time (fsync latency),
+		// maintenance every 20 ms.
 		c.Oracles.Retention = true
 		c.Mode = "cold"
 		g.smallDocs = true
-		c.Knobs.TotalSize = 5*c.Knobs.FracSize + uint64(g.r.Range(10000, 30000)) // never reaches the fraction under the writer
+		c.Knobs.SyncLatencyUs = []int{1000, 3000}[g.r.Intn(2)]
+		c.Knobs.MaintenanceDelayMs = 20
+		c.Knobs.StepCostNs = 0
+		c.Knobs.TotalSize = c.Knobs.FracSize + uint64(g.r.Range(60000, 90000))
 	}
 	c.Steps = append(c.Steps, Step{Kind: "start"})
 	writers, readers := g.r.Range(1, 4), g.r.Range(1, 4)
@@ -43,7 +50,14 @@ func genC07(seed uint64, tier Tier) *Case {
 	for w := 0; w < writers; w++ {
 		var ops []Op
 		n := g.r.Range(3, 8*scale)
+		if retention {
+			n = g.r.Range(20, 40*scale)
+		}
 		for i := 0; i < n; i++ {
+			if retention {
+				ops = append(ops, g.bulk(g.r.Range(1, 6)))
+				continue
+			}
 			ops = append(ops, g.bulk(g.bulkSize()))
 			if g.r.Bool(0.3) {
 				ops = append(ops, Op{Kind: "sleep", Ms: g.r.Range(1, 120)})
